@@ -1,4 +1,5 @@
 import GoLevel.Proofs.IterLSM
+import GoLevel.Proofs.MergeHeapSim
 import GoLevel.Props.C01
 /-!
 # Property C02 — iterators present exactly the live pairs of their view, as a cursor over the sorted list
@@ -12,7 +13,8 @@ Deleted and overwritten entries never surface, whatever the physical layout."
 
 Models (`GoLevel/Model/Iter.lean`): `DBIter` (`db_iter.go`), `MergedIter` (`iterator/merged_iter.go`),
 `IndexedIter` (`iterator/indexed_iter.go`), `ArrIter` (observable behaviour of `iterator/array_iter.go`,
-memdb's and the table reader's iterators).  Specification: `GoLevel/Spec/Cursor.lean` (`Cursor.run`), the
+memdb's and the table reader's iterators); `GoLevel/Model/MergeHeap.lean`: `GoHeap` (Go's `container/heap`) and
+`HeapMerged` (`mergedIterator` with the real heap; section g shows it refines `MergedIter`).  Specification: `GoLevel/Spec/Cursor.lean` (`Cursor.run`), the
 live pairs `visible c es seq` (per user key the newest entry with `seq ≤ seq`, if it is a value), related to
 `view` by `visible_iff_view`.
 
@@ -448,6 +450,168 @@ theorem stack_forward_walk_enumerates {c : UCmp} (hl : LawfulUCmp c) (specs : Li
       = (visible c U seq).map some ++ [none] := by
   rw [stack_refines_cursor hl specs hok U hU hk seq fuel hfuel, Cursor.run_first_next]
 
+/-! ## g. the real heap inside `mergedIterator` (`container/heap`, `Model/MergeHeap.lean`)
+
+`GoHeap` transcribes `up`/`down`/`Init`/`Push`/`Pop` of Go's `container/heap` over the slice `indexes` of
+child indices; `HeapMerged` is `mergedIterator` with these in place of the abstract "take a least element of
+the bag" of `MergedIter`.  `GoHeap.IsHeap less h` is the invariant of `container/heap`:
+`!h.Less(j, (j-1)/2)` for every `0 < j < h.Len()`. -/
+
+/-- `a < b` on child indices themselves: the order of the numeric examples -/
+def natLt (a b : Nat) : Bool := decide (a < b)
+
+theorem natLt_swo : GoHeap.SWO natLt (fun _ => True) where
+  irrefl := by intro a _; simp [natLt]
+  trans := by intro a b d _ _ _ h1 h2; simp only [natLt, decide_eq_true_eq] at *; omega
+  negtrans := by intro a b d _ _ _ h1 h2; simp only [natLt, decide_eq_false_iff_not] at *; omega
+
+/-- `indexHeap.Less` (`Compare(keys[i], keys[j]) < 0`, `> 0` when `reverse`) is a strict weak order on the
+children whose key is set — for ANY keys, equal ones included (they are incomparable, not ordered) -/
+theorem index_less_strict_weak_order {c : UCmp} (hl : LawfulUCmp c) (rev : Bool) (keys : List (Option IKey)) :
+    GoHeap.SWO (MergedIter.less c rev keys) (fun x => (MergedIter.keyAt keys x).isSome) :=
+  HeapMerged.swo_less hl rev keys
+
+/-- **`heap.Init`** establishes the heap invariant and permutes the slice (strict weak order `less`). -/
+theorem heap_init_establishes_invariant {less : Nat → Nat → Bool} {S : Nat → Prop} (hs : GoHeap.SWO less S)
+    (h : List Nat) (hS : ∀ x ∈ h, S x) :
+    GoHeap.IsHeap less (GoHeap.init less h) ∧ (GoHeap.init less h).Perm h :=
+  ⟨GoHeap.init_isHeap hs (GoHeap.allS_iff.2 hS), GoHeap.init_perm less h⟩
+
+example : GoHeap.init natLt [5, 3, 8, 1, 9, 2] = [1, 3, 2, 5, 9, 8] := by decide
+example := heap_init_establishes_invariant natLt_swo [5, 3, 8, 1, 9, 2] (fun _ _ => trivial)
+
+/-- **`heap.Push`** preserves the heap invariant; the new slice is a permutation of the old one plus `x`. -/
+theorem heap_push_preserves_invariant {less : Nat → Nat → Bool} {S : Nat → Prop} (hs : GoHeap.SWO less S)
+    (h : List Nat) (x : Nat) (hS : ∀ y ∈ h ++ [x], S y) (hh : GoHeap.IsHeap less h) :
+    GoHeap.IsHeap less (GoHeap.push less h x) ∧ (GoHeap.push less h x).Perm (h ++ [x]) :=
+  ⟨GoHeap.push_isHeap hs (GoHeap.allS_iff.2 hS) hh, GoHeap.push_perm less h x⟩
+
+example : GoHeap.push natLt [1, 3, 2, 5, 9, 8] 0 = [0, 3, 1, 5, 9, 8, 2] := by decide
+example := heap_push_preserves_invariant natLt_swo _ 0 (fun _ _ => trivial)
+  (heap_init_establishes_invariant natLt_swo [5, 3, 8, 1, 9, 2] (fun _ _ => trivial)).1
+
+/-- **`heap.Pop`** on a non-empty heap returns a minimum w.r.t. `less` (nothing in the heap is `less` than
+it); what it leaves is a heap again, and together with the returned element a permutation of the old heap. -/
+theorem heap_pop_returns_minimum {less : Nat → Nat → Bool} {S : Nat → Prop} (hs : GoHeap.SWO less S)
+    (h : List Nat) (hS : ∀ x ∈ h, S x) (hh : GoHeap.IsHeap less h) (hne : h ≠ []) :
+    ∃ x rest, GoHeap.pop less h = some (x, rest) ∧ (∀ y ∈ h, less y x = false) ∧ (x :: rest).Perm h ∧
+      GoHeap.IsHeap less rest := by
+  obtain ⟨rest, h1, h2, h3, h4⟩ := GoHeap.pop_spec hs (GoHeap.allS_iff.2 hS) hh hne
+  exact ⟨_, rest, h1, h4, h2, h3⟩
+
+example : GoHeap.pop natLt [1, 3, 2, 5, 9, 8] = some (1, [2, 3, 8, 5, 9]) := by decide
+example := heap_pop_returns_minimum natLt_swo (GoHeap.init natLt [5, 3, 8, 1, 9, 2]) (fun _ _ => trivial)
+  (heap_init_establishes_invariant natLt_swo [5, 3, 8, 1, 9, 2] (fun _ _ => trivial)).1 (by decide)
+
+/-- **The heap-based merged iterator answers like the abstract one.**  Children sorted with pairwise distinct
+keys (`MergeOK`, the hypothesis of `merged_refines_cursor`; internal keys are unique in the DB): for every call
+sequence `HeapMerged` — `heap.Init` after `First`/`Last`/`Seek` and after the re-seek of the other children on
+a `Prev` after `Next`, `heap.Push` of the moved child, `heap.Pop` in `next()`/`prev()` — gives the same
+answers as `MergedIter`.  (`HeapMerged.heap_run_eq_abstract` is the general form: any related states, children
+of any type that simulate a cursor.) -/
+theorem merged_heap_refines_abstract {c : UCmp} (hl : LawfulUCmp c) (Ls : List (List Entry)) (U : List Entry)
+    (hok : MergeOK c Ls U) (cs : List (Call IKey)) :
+    (HeapMerged.ops (ArrIter.ops c) c).run (MergedIter.new (Ls.map fun L => (⟨L, .soi⟩ : ArrIter))) cs
+      = (MergedIter.ops (ArrIter.ops c) c).run (MergedIter.new (Ls.map fun L => (⟨L, .soi⟩ : ArrIter))) cs := by
+  have hch : ∀ i L, Ls[i]? = some L → Sim (ArrIter.ops c) c L (arrRs Ls i) := by
+    intro i L h
+    have : arrRs Ls i = ArrIter.Rel L := by funext a p; simp [arrRs, h]
+    rw [this]; exact ArrIter.sim c L
+  refine HeapMerged.heap_run_eq_abstract hl (ArrIter.ops c) (arrRs Ls) Ls U hok hch cs _ _ .soi
+    (MergedIter.rel_new _ c _ Ls U _ (by simp) ?_) (HeapMerged.hrel_new c _)
+  intro i s hs
+  rw [List.getElem?_map] at hs
+  cases hL : Ls[i]? with
+  | none => rw [hL] at hs; simp at hs
+  | some L =>
+    rw [hL] at hs
+    simp only [Option.map_some, Option.some.injEq] at hs
+    subst hs
+    simp only [arrRs, hL]
+    exact ⟨rfl, rfl, trivial⟩
+
+/-- **The heap-based merged iterator refines the cursor** over the sorted union, for every call sequence. -/
+theorem merged_heap_refines_cursor {c : UCmp} (hl : LawfulUCmp c) (Ls : List (List Entry)) (U : List Entry)
+    (hok : MergeOK c Ls U) (cs : List (Call IKey)) :
+    (HeapMerged.ops (ArrIter.ops c) c).run (MergedIter.new (Ls.map fun L => (⟨L, .soi⟩ : ArrIter))) cs
+      = Cursor.run U (geKey c) .soi cs := by
+  rw [merged_heap_refines_abstract hl Ls U hok cs]
+  exact merged_refines_cursor hl Ls U hok cs
+
+/-- four children `[a,d] [b] [] [c,e]` (one exhausted from the start, the others run dry during the walk) -/
+example (cs : List (Call IKey)) :
+    (HeapMerged.ops (ArrIter.ops bytewise) bytewise).run
+      (MergedIter.new (MergedExample.Ls.map fun L => (⟨L, .soi⟩ : ArrIter))) cs
+      = Cursor.run MergedExample.U (geKey bytewise) .soi cs :=
+  merged_heap_refines_cursor bytewise_lawful _ _ MergedExample.mergeOK cs
+
+/-- three children, both direction changes (`Prev` after `Next`: re-seek + `heap.Init` in reverse order;
+`Next` after `Prev`: `Seek(key)` + `Next`), children exhausted at either end, stepping off and back -/
+def heapExLs : List (List Entry) := [[MergedExample.a, MergedExample.d], [MergedExample.b, MergedExample.e],
+  [MergedExample.c]]
+
+example : (HeapMerged.ops (ArrIter.ops bytewise) bytewise).run
+      (MergedIter.new (heapExLs.map fun L => (⟨L, .soi⟩ : ArrIter)))
+      [.first, .next, .next, .prev, .prev, .prev, .next, .next, .next, .next, .next, .next, .prev, .prev,
+       .seek ⟨[3], 0⟩, .prev, .next, .last, .next, .prev] =
+    (open MergedExample in
+      [some a, some b, some c, some b, some a, none, some a, some b, some c, some d, some e, none, some e, some d,
+       some d, some c, some d, some e, none, some e]) := by decide
+
+/-- the heap layouts differ from the abstract bag while the answers agree: after `Last, Prev` on the four
+children the real slice `indexes` is `[3, 1]`, the abstract bag `[1, 3]` -/
+example : (((HeapMerged.ops (ArrIter.ops bytewise) bytewise).step .prev
+      ((HeapMerged.ops (ArrIter.ops bytewise) bytewise).step .last
+        (MergedIter.new (MergedExample.Ls.map fun L => (⟨L, .soi⟩ : ArrIter))))).heap,
+    ((MergedIter.ops (ArrIter.ops bytewise) bytewise).step .prev
+      ((MergedIter.ops (ArrIter.ops bytewise) bytewise).step .last
+        (MergedIter.new (MergedExample.Ls.map fun L => (⟨L, .soi⟩ : ArrIter))))).heap) = ([3, 1], [1, 3]) := by
+  decide
+
+/-- **Ties: the heap is not stable.**  Three children each holding the same key (values `0,1,2` name the
+child): the real code shows child `0`, then `2`, then `1` going forwards — and, coming back from the end with
+`Prev` (`Last` rebuilds a max-heap: again `[0,1,2]`), the same order `0, 2, 1`, not its mirror image.  The
+abstract `MergedIter` (first least element in bag order) would show `0, 1, 2`: with duplicate keys — excluded
+by the contract of `NewMergedIterator` — the refinement theorems above do not hold, and the differential
+walks with duplicate keys (`it new hmerged`) can only be answered by the heap model. -/
+def tieLs : List (List Entry) := [[⟨⟨[1], 5⟩, [0]⟩], [⟨⟨[1], 5⟩, [1]⟩], [⟨⟨[1], 5⟩, [2]⟩]]
+
+theorem tie_order_example :
+    ((HeapMerged.ops (ArrIter.ops bytewise) bytewise).run (MergedIter.new (tieLs.map fun L => (⟨L, .soi⟩ : ArrIter)))
+        [.first, .next, .next, .next, .prev, .prev, .prev, .prev]).map (·.map (·.val))
+      = [some [0], some [2], some [1], none, some [0], some [2], some [1], none]
+    ∧ ((MergedIter.ops (ArrIter.ops bytewise) bytewise).run (MergedIter.new (tieLs.map fun L => (⟨L, .soi⟩ : ArrIter)))
+        [.first, .next, .next, .next]).map (·.map (·.val))
+      = [some [0], some [1], some [2], none] := by decide
+
+/-- with a tie a direction change loses / repeats entries (real behaviour, reproduced by the heap model):
+two children `[k]`, `[k]`: `First` shows child 0; `Prev` re-seeks child 1 to `k` and steps it back, so the
+iterator falls off the front although child 1's `k` was never shown; `Next` then shows child 0's `k` again
+and only then child 1's. -/
+example : ((HeapMerged.ops (ArrIter.ops bytewise) bytewise).run
+      (MergedIter.new ((tieLs.take 2).map fun L => (⟨L, .soi⟩ : ArrIter)))
+      [.first, .prev, .next, .next, .next, .prev, .next]).map (·.map (·.val))
+    = [some [0], none, some [0], some [1], none, some [0], some [1]] := by decide
+
+/-- **The whole stack with the real heap.**  As `stack_refines_cursor`, with the raw iterator being the
+heap-based merged iterator: `DBIter` over it answers every call sequence like the cursor over the visible
+pairs of the sorted union. -/
+theorem stack_heap_refines_cursor {c : UCmp} (hl : LawfulUCmp c) (specs : List NodeSpec)
+    (hok : ∀ sp ∈ specs, sp.OK c) (U : List Entry) (hU : MergeOK c (specs.map (·.list)) U)
+    (hk : ∀ e ∈ U, e.kind ≤ Gen.keyTypeVal) (seq fuel : Nat) (hfuel : U.length < fuel)
+    (cs : List (Call Bytes)) :
+    DBIter.run (HeapMerged.ops (Node.ops c) c) c
+        (DBIter.new (MergedIter.new (specs.map (·.fresh))) seq fuel) cs
+      = Cursor.run (visible c U seq) (geUser c) .soi cs := by
+  have hsim := HeapMerged.sim hl (Node.ops c) (stackRs c specs) (specs.map (·.list)) U hU
+    (stack_children_sim hl specs hok)
+  exact run_rel hsim hl hU.sortedU hk cs
+    ⟨rfl, hfuel, rfl, ⟨_, stack_rel_new c specs U, HeapMerged.hrel_new c _⟩⟩
+
+example : DBIter.run (HeapMerged.ops (Node.ops bytewise) bytewise) bytewise
+      (DBIter.new (MergedIter.new (exSpecs.map (·.fresh))) 7 10) exCalls
+    = Cursor.run (visible bytewise exEs 7) (geUser bytewise) .soi exCalls := by decide
+
 def theorems : List String :=
   ["GoLevel.C02.dbiter_refines_cursor", "GoLevel.C02.visible_sorted", "GoLevel.C02.visible_iff_view",
    "GoLevel.C02.dbiter_range_refines_cursor", "GoLevel.C02.merged_refines_cursor",
@@ -456,6 +620,9 @@ def theorems : List String :=
    "GoLevel.C02.db_iterator_presents_view", "GoLevel.C02.forward_walk_enumerates",
    "GoLevel.C02.backward_walk_enumerates", "GoLevel.C02.seek_lands_on_first_ge",
    "GoLevel.C02.only_live_pairs_surface", "GoLevel.C02.stack_only_live_pairs_surface",
-   "GoLevel.C02.stack_forward_walk_enumerates"]
+   "GoLevel.C02.stack_forward_walk_enumerates", "GoLevel.C02.index_less_strict_weak_order",
+   "GoLevel.C02.heap_init_establishes_invariant", "GoLevel.C02.heap_push_preserves_invariant",
+   "GoLevel.C02.heap_pop_returns_minimum", "GoLevel.C02.merged_heap_refines_abstract",
+   "GoLevel.C02.merged_heap_refines_cursor", "GoLevel.C02.stack_heap_refines_cursor"]
 
 end GoLevel.C02
